@@ -14,7 +14,7 @@ use rustrtc::MediaKind;
 use std::sync::{Arc, Mutex};
 use std::time::Duration;
 
-const DIMS: &[(&str, i64)] = &[("mode", 3), ("mix", 5), ("bundle", 3), ("mux", 2), ("lite", 3), ("udpmux", 2), ("latch", 3), ("compat", 2), ("offerer", 2)];
+const DIMS: &[(&str, i64)] = &[("mode", 3), ("mix", 5), ("bundle", 3), ("mux", 2), ("lite", 3), ("udpmux", 2), ("latch", 3), ("compat", 2), ("offerer", 2), ("tcp", 7)];
 
 fn decode(mut n: u64) -> Vec<(String, i64)> {
     let mut v = Vec::new();
@@ -29,6 +29,11 @@ fn lattice_size() -> u64 {
 }
 /// all compatible lattice points, in index order
 pub fn compatible_points() -> Vec<u64> {
+    // computed once per process: the lattice has 45 360 points since the tcp dimension exists, and generate() runs per index
+    static PTS: std::sync::OnceLock<Vec<u64>> = std::sync::OnceLock::new();
+    PTS.get_or_init(compute_compatible_points).clone()
+}
+fn compute_compatible_points() -> Vec<u64> {
     (0..lattice_size())
         .filter(|n| {
             let mut p = Plan::default();
@@ -40,13 +45,22 @@ pub fn compatible_points() -> Vec<u64> {
         .collect()
 }
 
+/// the compatible points without ICE-TCP (cached)
+fn points_without_tcp() -> &'static Vec<u64> {
+    static PTS0: std::sync::OnceLock<Vec<u64>> = std::sync::OnceLock::new();
+    PTS0.get_or_init(|| compatible_points().into_iter().filter(|n| decode(*n).iter().any(|(k, v)| k == "tcp" && *v == 0)).collect())
+}
+
 pub fn generate(prop: &str, seed: u64, idx: u64, tier: Tier) -> Plan {
     let mut r = Rng::new(mix(mix(seed, idx), fnv(FNV0, prop.as_bytes())));
     let mut p = Plan { prop: prop.into(), scenario: "pc_connect".into(), seed: r.next(), ..Default::default() };
     let pts = compatible_points();
     // thorough: every compatible point once (then seeded repeats with other latencies/schedules);
     // quick: a seeded sample
-    let point = if tier == Tier::Thorough && (idx as usize) < pts.len() { pts[idx as usize] } else { pts[r.below(pts.len() as u64) as usize] };
+    // the seeded sample is taken among the points without ICE-TCP (the same list, in the same order, as before the tcp
+    // dimension existed); the ICE-TCP share is decided at the end of this function
+    let pts0: &Vec<u64> = points_without_tcp();
+    let point = if tier == Tier::Thorough && (idx as usize) < pts.len() { pts[idx as usize] } else { pts0[r.below(pts0.len() as u64) as usize] };
     for (k, v) in decode(point) {
         p.knobs.insert(k, v);
     }
@@ -67,6 +81,37 @@ pub fn generate(prop: &str, seed: u64, idx: u64, tier: Tier) -> Plan {
     }
     // how the data channels come about (only read by configurations that have one)
     p.knobs.insert("dc_inband".into(), *r.pick(&[0i64, 0, 1, 2, 2, 3]));
+    // ---- ICE-TCP share of the quick tier (drawn last: the plans of all other runs keep their earlier draws).
+    // A fifth of the sampled runs is moved onto an ICE-TCP point: WebRtc mode, no ICE-lite / UDP mux / latching;
+    // the media mix, bundle and rtcp-mux policy and the offerer of the sampled point are kept.
+    let force_tcp = p.knob("tcp", 0) == 0 && !(tier == Tier::Thorough && (idx as usize) < pts.len()) && r.chance(20);
+    if force_tcp {
+        for (k, v) in [("mode", 0i64), ("lite", 0), ("udpmux", 0), ("latch", 0), ("compat", 0)] {
+            p.knobs.insert(k.into(), v);
+        }
+        p.knobs.remove("compat_mix");
+        p.knobs.insert("tcp".into(), *r.pick(&[1i64, 1, 2, 3, 4, 4, 5, 6]));
+        let mut n = 0u64;
+        for (k, card) in DIMS.iter().rev() {
+            n = n * *card as u64 + p.knob(k, 0) as u64;
+        }
+        p.knobs.insert("point".into(), n as i64);
+    }
+    if p.knob("tcp", 0) != 0 {
+        // what a healthy TCP connection may do to a byte stream (net_tcp.rs): segmentation, coalescing, short reads,
+        // WouldBlock / Pending writes (io_yield_pct) - none of them is a fault
+        p.knobs.insert("tcp_mss".into(), *r.pick(&[0i64, 0, 1448, 536, 100, 7]));
+        p.knobs.insert("tcp_recut_pct".into(), *r.pick(&[0i64, 10, 50, 100]));
+        p.knobs.insert("tcp_gap_us".into(), *r.pick(&[0i64, 0, 1, 300, 20_000]));
+        p.knobs.insert("tcp_coalesce".into(), r.below(2) as i64);
+        p.knobs.insert("tcp_short_read_pct".into(), *r.pick(&[0i64, 0, 20, 90]));
+        p.knobs.insert("tcp_short_write_pct".into(), *r.pick(&[0i64, 0, 0, 15, 60]));
+        p.knobs.insert("io_yield_pct".into(), *r.pick(&[0i64, 5, 20, 50, 80]));
+        // data channel and media flow at the same time from several tasks
+        p.knobs.insert("conc".into(), 1);
+        p.knobs.insert("conc_msgs".into(), *r.pick(&[10i64, 40, 120]));
+        p.knobs.insert("conc_samples".into(), *r.pick(&[10i64, 40, 100]));
+    }
     p
 }
 
@@ -104,7 +149,7 @@ pub async fn run(ctx: &Ctx) {
             })));
         }
     }
-    let fail = |what: String| ctx.violate("C10.connect", format!("{what} [mode={} mix={} bundle={} mux={} lite={} udpmux={} latch={} compat={} offerer={} sig_delay_ms={} ans_late_ms={} dc_inband={} compat_mix={}]", k.mode, k.mix, k.bundle, k.mux, k.lite, k.udpmux, k.latch, k.compat, k.offerer, ctx.plan.knob("sig_delay_ms", 0), ctx.plan.knob("ans_late_ms", 0), ctx.plan.knob("dc_inband", 0), ctx.plan.knob("compat_mix", 0)));
+    let fail = |what: String| ctx.violate("C10.connect", format!("{what} [mode={} mix={} bundle={} mux={} lite={} udpmux={} latch={} compat={} offerer={} sig_delay_ms={} ans_late_ms={} dc_inband={} compat_mix={} tcp={} tcp_knobs={:?}]", k.mode, k.mix, k.bundle, k.mux, k.lite, k.udpmux, k.latch, k.compat, k.offerer, ctx.plan.knob("sig_delay_ms", 0), ctx.plan.knob("ans_late_ms", 0), ctx.plan.knob("dc_inband", 0), ctx.plan.knob("compat_mix", 0), k.tcp, tcp_knobs(&ctx.plan)));
     {
         let (off, ans) = if k.offerer == 0 { (&mut a, &mut b) } else { (&mut b, &mut a) };
         if k.has_dc() {
@@ -117,6 +162,12 @@ pub async fn run(ctx: &Ctx) {
             } else {
                 off.add_dc(false);
             }
+        }
+        // concurrent phase (knob conc): its own pre-negotiated channel (stream 1) on both ends
+        let conc = ctx.plan.knob("conc", 0) != 0;
+        if conc && k.has_dc() {
+            off.add_more_dcs(1);
+            ans.add_more_dcs(1);
         }
         off.add_media(&k);
         match negotiate(off, ans, &k, ctx).await {
@@ -282,6 +333,20 @@ pub async fn run(ctx: &Ctx) {
             }
         }
     }
+    // which kind of pair ICE selected (probes), and the concurrent phase: everything at once from several tasks
+    if k.tcp != 0 {
+        let sel: Vec<Option<String>> = [&a, &b].iter().map(|p| p.pc.ice_transport().get_selected_pair().map(|x| x.local.transport.clone())).collect();
+        let all_tcp = sel.iter().all(|s| s.as_deref() == Some("tcp"));
+        ctx.ev(&format!("selected pair transports {sel:?}"), "");
+        ctx.stat(if all_tcp { "probe.c10.tcp_pair_selected" } else { "probe.c10.tcp_offered_udp_selected" }, 1);
+        ctx.stat(&format!("probe.c10.tcp_cfg.{}{}", k.tcp, if all_tcp { ".tcp" } else { ".udp" }), 1);
+        if matches!(k.tcp, 1 | 2 | 4 | 5 | 6) && !all_tcp {
+            fail(format!("a TCP-only end is connected, yet the selected pairs are {sel:?}"));
+        }
+    }
+    if ctx.plan.knob("conc", 0) != 0 {
+        concurrent_phase(ctx, &k, &a, &b, &fail).await;
+    }
     // DTLS roles complementary and SRTP/record keys identical (WebRtc mode)
     if k.mode == 0 {
         match (a.pc.verif_dtls_transport(), b.pc.verif_dtls_transport()) {
@@ -303,6 +368,193 @@ pub async fn run(ctx: &Ctx) {
     }
     ctx.stat("nontrivial", 1);
     finish(ctx, a, b).await;
+}
+
+/// the TCP behaviour knobs of a plan, for violation details
+fn tcp_knobs(p: &Plan) -> Vec<(String, i64)> {
+    p.knobs.iter().filter(|(k, _)| k.starts_with("tcp_") || *k == "io_yield_pct" || k.starts_with("conc")).map(|(k, v)| (k.clone(), *v)).collect()
+}
+
+fn conc_message(tag: u8, i: usize, seed: u64) -> Vec<u8> {
+    // sizes: mostly small, some near one MTU, now and then a message that SCTP has to fragment
+    let len = match i % 10 {
+        0 => 1150,
+        3 => 5,
+        7 if i % 40 == 7 => 20_000,
+        _ => 20 + (i * 37) % 300,
+    };
+    let mut v = vec![0u8; len];
+    Rng::new(mix(seed ^ tag as u64, i as u64)).fill(&mut v);
+    v[0] = tag;
+    v[1..5].copy_from_slice(&(i as u32).to_be_bytes());
+    v
+}
+
+/// Phase "everything at once" (knob conc = 1, set for the ICE-TCP configurations): per direction one task sends
+/// `conc_msgs` data-channel messages back to back on a pre-negotiated channel while one task per track feeds
+/// `conc_samples` samples, 5 ms apart - so that on each end the SCTP/DTLS send path, the audio and the video RTP
+/// senders, the RTCP loops and the STUN keepalives write to the selected socket at the same time. Oracle C10.connect:
+/// every data-channel message arrives intact and in order (the channel is reliable and ordered); no media packet
+/// arrives altered; a healthy share (half) of the burst's samples arrives; and of three further samples sent per stream
+/// AFTER the burst at least one arrives - a stream that lost its framing during the burst never delivers again.
+async fn concurrent_phase(ctx: &Ctx, k: &PcKnobs, a: &Peer, b: &Peer, fail: &dyn Fn(String)) {
+    let n_msgs = ctx.plan.knob("conc_msgs", 40).clamp(1, 2000) as usize;
+    let n_samples = ctx.plan.knob("conc_samples", 40).clamp(1, 2000) as u32;
+    let seed = ctx.plan.seed;
+    ctx.ev("concurrent phase", &format!("msgs={n_msgs} samples={n_samples}"));
+    ctx.stat("probe.c10.conc_runs", 1);
+    let mut tasks: Vec<tokio::task::JoinHandle<()>> = Vec::new();
+    // ---- data channel: sender + receiver task per direction
+    type Got = Arc<Mutex<Vec<Vec<u8>>>>;
+    let mut dc_results: Vec<(&'static str, u8, Got, Arc<Mutex<Option<String>>>)> = Vec::new();
+    if k.has_dc() {
+        for (tx, rx, tag, t) in [(a, b, "A>B", b'a'), (b, a, "B>A", b'b')] {
+            let (Some(dtx), Some(drx)) = (tx.more_dcs.first().cloned(), rx.more_dcs.first().cloned()) else {
+                fail(format!("create_data_channel (second pre-negotiated channel) failed {tag}"));
+                continue;
+            };
+            let got: Got = Arc::new(Mutex::new(Vec::new()));
+            let err: Arc<Mutex<Option<String>>> = Arc::new(Mutex::new(None));
+            let (pc, e2) = (tx.pc.clone(), err.clone());
+            tasks.push(tokio::spawn(vh::wrap_task(async move {
+                while dtx.state.load(std::sync::atomic::Ordering::SeqCst) != rustrtc::DataChannelState::Open as usize {
+                    tokio::time::sleep(Duration::from_millis(10)).await;
+                }
+                for i in 0..n_msgs {
+                    if let Err(e) = pc.send_data(dtx.id, &conc_message(t, i, seed)).await {
+                        *e2.lock().unwrap() = Some(format!("send_data #{i}: {e}"));
+                        return;
+                    }
+                    if i % 8 == 7 {
+                        tokio::time::sleep(Duration::from_millis(3)).await;
+                    }
+                }
+            })));
+            let g2 = got.clone();
+            tasks.push(tokio::spawn(vh::wrap_task(async move {
+                while g2.lock().unwrap().len() < n_msgs {
+                    match drx.recv().await {
+                        Some(DataChannelEvent::Message(m)) => g2.lock().unwrap().push(m.to_vec()),
+                        Some(_) => {}
+                        None => return,
+                    }
+                }
+            })));
+            dc_results.push((tag, t, got, err));
+        }
+    }
+    // ---- media: feeder + reader task per stream and direction
+    struct Stream {
+        tag: &'static str,
+        kname: &'static str,
+        name: &'static str,
+        kid: u8,
+        src: Arc<rustrtc::media::track::SampleStreamSource>,
+        got: Got,
+        accepted: Arc<Mutex<Vec<u32>>>,
+    }
+    let mut streams: Vec<Stream> = Vec::new();
+    let mut readers: Vec<tokio::task::JoinHandle<()>> = Vec::new();
+    if k.has_audio() {
+        for (tx, rx, tag) in [(a, b, "A>B"), (b, a, "B>A")] {
+            for (kind, kname, kid) in [(MediaKind::Audio, "audio", 0u8), (MediaKind::Video, "video", 1u8)] {
+                if kind == MediaKind::Video && !k.has_video() {
+                    continue;
+                }
+                let src = if kid == 0 { tx.audio.clone() } else { tx.video.clone() };
+                let Some(src) = src else { continue };
+                let Some(track) = rx.pc.get_transceivers().into_iter().find(|t| t.kind() == kind).and_then(|t| t.receiver()).map(|r| r.track()) else { continue };
+                let got: Got = Arc::new(Mutex::new(Vec::new()));
+                let g2 = got.clone();
+                readers.push(tokio::spawn(vh::wrap_task(async move {
+                    while let Ok(s) = track.recv().await {
+                        let d = match s {
+                            MediaSample::Audio(f) => f.data.to_vec(),
+                            MediaSample::Video(f) => f.data.to_vec(),
+                        };
+                        g2.lock().unwrap().push(d);
+                    }
+                })));
+                let accepted = Arc::new(Mutex::new(Vec::new()));
+                let (s2, acc2, name) = (src.clone(), accepted.clone(), tx.name);
+                tasks.push(tokio::spawn(vh::wrap_task(async move {
+                    for i in 0..n_samples {
+                        if s2.send(conc_sample(name, kid, 1000 + i)).is_ok() {
+                            acc2.lock().unwrap().push(1000 + i);
+                        }
+                        tokio::time::sleep(Duration::from_millis(5)).await;
+                    }
+                })));
+                streams.push(Stream { tag, kname, name: tx.name, kid, src, got, accepted });
+            }
+        }
+    }
+    ctx.stat("probe.c10.conc_tasks", tasks.len() as u64);
+    // ---- let the burst run; the data channel gets a generous bound (reliable delivery, 20 KB messages, latency)
+    let all = futures::future::join_all(tasks.iter_mut());
+    let done = tokio::time::timeout(Duration::from_secs(90), all).await.is_ok();
+    for t in &tasks {
+        t.abort();
+    }
+    // ---- after the burst: three more samples per stream
+    tokio::time::sleep(Duration::from_millis(300)).await;
+    for i in 0..3u32 {
+        for s in &streams {
+            if s.src.send(conc_sample(s.name, s.kid, 5000 + i)).is_ok() {
+                s.accepted.lock().unwrap().push(5000 + i);
+            }
+        }
+        tokio::time::sleep(Duration::from_millis(20)).await;
+    }
+    tokio::time::sleep(Duration::from_millis(1200)).await;
+    for r in &readers {
+        r.abort();
+    }
+    // ---- verdicts
+    for (tag, t, got, err) in dc_results {
+        let got = got.lock().unwrap().clone();
+        let expected: Vec<Vec<u8>> = (0..n_msgs).map(|i| conc_message(t, i, seed)).collect();
+        ctx.ev(&format!("conc dc {tag}"), &format!("sent={n_msgs} got={}", got.len()));
+        if let Some(e) = err.lock().unwrap().clone() {
+            fail(format!("concurrent phase: data channel {tag}: {e}"));
+        } else if got != expected {
+            let first_bad = got.iter().zip(expected.iter()).position(|(g, e)| g != e).unwrap_or(got.len().min(expected.len()));
+            fail(format!(
+                "concurrent phase: data-channel messages {tag} while media flows: {} of {n_msgs} arrived{}, first missing/different message is #{first_bad}",
+                got.len(),
+                if done { "" } else { " within 90 s" }
+            ));
+        }
+    }
+    for s in &streams {
+        let got = s.got.lock().unwrap().clone();
+        let acc = s.accepted.lock().unwrap().clone();
+        let sent: Vec<Vec<u8>> = acc.iter().map(|i| media_payload(s.name, s.kid, *i)).collect();
+        let burst = acc.iter().filter(|i| **i < 5000).count();
+        let burst_intact = acc.iter().filter(|i| **i < 5000).filter(|i| got.contains(&media_payload(s.name, s.kid, **i))).count();
+        let post = acc.iter().filter(|i| **i >= 5000).count();
+        let post_intact = acc.iter().filter(|i| **i >= 5000).filter(|i| got.contains(&media_payload(s.name, s.kid, **i))).count();
+        // samples of the earlier one-stream-at-a-time phase may still trickle in: only packets that are neither those nor ours are foreign
+        let foreign = got.iter().filter(|g| !sent.contains(g) && !(0..12u32).any(|i| **g == media_payload(s.name, s.kid, i))).count();
+        ctx.ev(&format!("conc media {} {}", s.tag, s.kname), &format!("burst={burst} intact={burst_intact} post={post} intact={post_intact} foreign={foreign}"));
+        if foreign > 0 {
+            fail(format!("concurrent phase: {foreign} {} packet(s) {} arrived altered", s.kname, s.tag));
+        } else if burst > 0 && burst_intact * 2 < burst {
+            fail(format!("concurrent phase: only {burst_intact} of {burst} {} samples {} sent while data and other media flowed arrived", s.kname, s.tag));
+        } else if post > 0 && post_intact == 0 {
+            fail(format!("concurrent phase: none of the {post} {} samples {} sent after the burst arrived ({burst_intact} of {burst} during it): the stream is dead", s.kname, s.tag));
+        }
+    }
+}
+
+fn conc_sample(name: &str, kid: u8, i: u32) -> MediaSample {
+    use rustrtc::media::frame::{AudioFrame, VideoFrame};
+    let data = bytes::Bytes::from(media_payload(name, kid, i));
+    if kid == 0 {
+        MediaSample::Audio(AudioFrame { rtp_timestamp: 1000 + i * 960, data, ..Default::default() })
+    } else {
+        MediaSample::Video(VideoFrame { rtp_timestamp: 5000 + i * 3000, data, is_last_packet: true, ..Default::default() })
+    }
 }
 
 async fn finish(ctx: &Ctx, a: Peer, b: Peer) {
